@@ -1,9 +1,60 @@
-"""W7: the repository's own tests as a monitored workload (filled in below)."""
+"""W7: the repository's own tests as a monitored workload (DESIGN §4.2 W7b).
+
+The test modules are executed in-process (pytest.main) from ``<repo>/tests`` with
+the calling property's monitors already installed, so every call the tests make
+into mir_eval -- including the regression fixtures under tests/data -- is
+observed by the same post-conditions as the generated workloads. Nothing is
+written under the repository (no cache provider, no bytecode, no coverage)."""
+
+import os
+import sys
+
+from .. import env
+
+QUICK = ["test_alignment.py", "test_beat.py", "test_chord.py", "test_key.py",
+         "test_melody.py", "test_multipitch.py", "test_onset.py", "test_pattern.py",
+         "test_segment.py", "test_tempo.py", "test_transcription.py",
+         "test_transcription_velocity.py", "test_util.py", "test_input_output.py"]
+THOROUGH_EXTRA = ["test_sonify.py"]
 
 
-def plan(tier):
-    return []
+def plan(tier, modules=None):
+    mods = list(modules or QUICK)
+    if tier == "thorough" and modules is None:
+        mods += THOROUGH_EXTRA
+    return [{"name": "repo-tests-" + m[5:-3], "kind": "w7", "module": m,
+             "timeout": 1500} for m in mods]
+
+
+class _Plugin:
+    def __init__(self, ctx):
+        self.ctx = ctx
+
+    def pytest_runtest_logreport(self, report):
+        if report.when == "call":
+            self.ctx.count("w7.tests_" + report.outcome)
 
 
 def run(spec, ctx):
-    pass
+    import pytest
+    tests = os.path.join(env.repo_dir(), "tests")
+    old = os.getcwd()
+    os.chdir(tests)
+    argv = ["-q", "-x" if False else "-q", "--no-cov", "-p", "no:cacheprovider",
+            "-p", "no:randomly", "-W", "ignore", "--rootdir", tests, "-o",
+            "addopts=", spec["module"]]
+    try:
+        devnull = open(os.devnull, "w")
+        so, se = sys.stdout, sys.stderr
+        sys.stdout = sys.stderr = devnull
+        try:
+            rc = pytest.main(argv, plugins=[_Plugin(ctx)])
+        finally:
+            sys.stdout, sys.stderr = so, se
+            devnull.close()
+    finally:
+        os.chdir(old)
+    ctx.count("w7.modules_run")
+    ctx.hist("w7.exit_codes", "%s:%s" % (spec["module"], int(rc)))
+    if int(rc) not in (0, 1):
+        ctx.notes.append("pytest exit code %s for %s" % (rc, spec["module"]))
